@@ -92,10 +92,36 @@ class _Table(Provider):
         return bytes(buf[lo : lo + n])
 
 
+def fit_content(key: int, nbytes: int, target: int):
+    """Grain content whose zlib stream is (as close as possible to) `target` bytes long: `r` incompressible bytes
+    followed by pattern.  Used to hit the sector-boundary cases of the compressed-grain header arithmetic."""
+    from hv.sparse import pattern, rnd_bytes
+
+    rnd = rnd_bytes(key, min(nbytes, target + 64))
+
+    tag = struct.pack("<QQ", key & 0xFFFFFFFFFFFFFFFF, 0x5EEDF111) * (nbytes // 16 + 1)
+
+    def make(r):  # r incompressible bytes, then a highly compressible per-grain tag pattern
+        return rnd[:r] + tag[r:nbytes]
+
+    lo, hi = 0, min(nbytes, len(rnd))
+    while lo < hi:  # compressed length grows (almost) monotonically with r
+        mid = (lo + hi) // 2
+        if len(zlib.compress(make(mid), 6)) < target:
+            lo = mid + 1
+        else:
+            hi = mid
+    best = min(range(max(0, lo - 3), min(nbytes, lo + 3) + 1), key=lambda r: abs(len(zlib.compress(make(r), 6)) - target))
+    return Lit(make(best))
+
+
 def grain_content(spec, layer, g, nbytes):
     """Provider of the (uncompressed) grain content."""
     cmix = spec.get("cmix", 0)
     k = key_for(layer, g)
+    ct = spec.get("ctargets")
+    if spec.get("compressed") and ct:
+        return fit_content(k, nbytes, ct[g % len(ct)])
     if spec.get("compressed") and cmix:
         plen = nbytes // 2 if cmix == 1 else max(0, nbytes // 16)
         plen = (plen // 512) * 512
@@ -205,6 +231,7 @@ def build_kdmv(spec):
     pos = max(pos, spec.get("data_base", 0), 2)
     # grains
     gte = {}
+    contents = {}
     pad = spec.get("pad", 0)
     alloc = sorted([(s, g) for g, k, s in described if k == "a"])
     if not compressed:
@@ -221,7 +248,8 @@ def build_kdmv(spec):
             if last_slot is not None and s - last_slot > 1:
                 cur += (s - last_slot - 1) * (1 + pad)  # gaps between blobs
             last_slot = s
-            data = grain_content(spec, layer, g, gbytes).read(0, gbytes)
+            contents[g] = grain_content(spec, layer, g, gbytes)
+            data = contents[g].read(0, gbytes)
             comp = zlib.compress(data, spec.get("zlevel", 6))
             if spec.get("embedded_lba", True):
                 blob = struct.pack("<QI", g * grain, len(comp)) + comp
@@ -237,7 +265,7 @@ def build_kdmv(spec):
         if ln <= 0:
             continue
         if k == "a":
-            lay.put(g * gbytes, Sub_(grain_content(spec, layer, g, gbytes), ln))
+            lay.put(g * gbytes, Sub_(contents.get(g) or grain_content(spec, layer, g, gbytes), ln))
         elif k == "z":
             gte[g] = 1
             lay.put(g * gbytes, Zero(ln))
